@@ -76,6 +76,17 @@ CHECKS = {
              'rename_globals=True for histories.',
         technique='TLA+ (TLC) model checking of call histories/interleavings + replay of TLC-generated behaviours into the implementation',
         design_ref='3.8, 5 (C11)'),
+    'C02': dict(
+        specs='PrinterS.tla, Printer.tla, Trace_Printer.tla',
+        text='S = the grammar\'s levels per expression kind and per expression-valued slot (121 slots x 60 kinds), validated cell by cell against '
+             'CPython\'s parser; M = the printer\'s parenthesisation rules transcribed from the code; TLC checks M faithful under S for all 6 922 cells. '
+             'Every cell (parenthesised and, where S allows, bare), depth-2 chains (quick: 12 000 sampled; thorough: all ~220 000), literal boundary '
+             'values in operator contexts and whole modules are round-tripped through the real printer on nine interpreters, strict identity '
+             'computed by the interpreter, verdict by TLC; minify() with all transforms off must return a strictly identical tree.',
+        note='Numeric literal text and string quoting are covered by boundary-value observation only (no TLA+ model of float repr). Strict identity '
+             'computed by harness/worker.py in the interpreter under test. Token spacing is judged through round trip only.',
+        technique='TLA+ (TLC) exhaustive check of the parenthesisation table + replay of every enumerated cell/chain into the real printer',
+        design_ref='3.4, 5 (C02)'),
     'C08': dict(
         specs='Pipeline.tla, PipelineS.tla, Trace_Pipeline.tla',
         text='TLC exhaustively checks the implementation-shaped pipeline model against the envelope (all 2^14 gating option sets x taint x '
